@@ -693,8 +693,9 @@ func vfExecProd(c *vfProdCase) *vfProdRun {
 		}
 		// ... unless a trigger has certainly fired. Buffers are per broker and the partition of an unsent message is not
 		// observable, so the count and the bytes are judged by pigeonhole over the brokers; key+value bytes are a lower bound
-		// of what the producer counts per message.
-		if nb := c.Brokers; len(unsent) > 0 && nb > 0 {
+		// of what the producer counts per message. One buffer per broker only holds while nothing but latency happens: after
+		// a failed request (a leader moved) a broker can have a second, abandoned worker with a buffer of its own.
+		if nb := c.Brokers; len(unsent) > 0 && nb > 0 && run.calm() {
 			cc := &c.Conf
 			if (cc.FlushMessages > 0 && len(unsent) >= nb*(cc.FlushMessages-1)+1) || (cc.FlushBytes > 0 && kv >= nb*cc.FlushBytes) {
 				run.unflushed = unsent
@@ -912,6 +913,29 @@ func (run *vfProdRun) historyForFailure() interface{} {
 }
 
 // failAt is fail for a symptom that shows at a known history position: only what happened before it defines the region.
+// calm reports that nothing but latency happened in this run: no failing answer was scripted, the script moved no leader
+// and bounced no broker, and the producer never took its connection-level failure path.
+func (run *vfProdRun) calm() bool {
+	for _, st := range run.c.Script {
+		if st.Op == "moveLeader" || st.Op == "brokerDown" || st.Op == "leaderless" {
+			return false
+		}
+	}
+	for _, l := range run.c.Faults {
+		for _, f := range l {
+			if f.Kind != "ok" || f.MoveLeader != "" {
+				return false
+			}
+		}
+	}
+	for _, e := range run.sim.hist.snapshot() {
+		if e.Kind == "client-conn-error" {
+			return false
+		}
+	}
+	return true
+}
+
 func (run *vfProdRun) failAt(before int64, symptom, format string, a ...interface{}) *vfcore.Failure {
 	f := run.fail(symptom, format, a...)
 	f.Regions = vfProdRegionsAt(run, before)
